@@ -1,6 +1,6 @@
 """C16 — the unsat-core cache never changes a verdict.
 
-Obligations: translators T-unsatcore / T-coreids / T-coreappend, Props/C16.vo, lint.
+Obligations: translators T-unsatcore / T-coreids / T-coreappend / T-cacheusers, Props/C16.vo, lint.
 Ties (real halmos code vs extracted model vs an independent python rendering of the spec):
   L1  parse_unsat_core, check_unsat_cores, dump, `\\s`;  solve_end_to_end + the real
       _solve_end_to_end_callback driven through scripted solver replies (step correspondence
@@ -8,8 +8,11 @@ Ties (real halmos code vs extracted model vs an independent python rendering of 
   L2  real sevm.Path trees (branch/activate/append/to_smt2) solved by the real z3 binary through
       solve_end_to_end, cache on vs off vs brute-force ground truth, with the id-stability
       monitor (H2) and forced gc between paths;
-  L3  (harness/props/C16_e2e.py) python -m halmos on fabricated multi-path tests, cache on vs off,
-      with the same monitor installed inside the halmos process.
+  L3  (harness/props/C16_e2e.py) python -m halmos on fabricated multi-path tests (assertion, STUCK and normal
+      leaves under conditions that are contradictory only after refinement), cache on vs off, with the same
+      monitor installed inside the halmos process; in sync mode (the solver answers before the engine goes on)
+      every test is replayed in the extracted run_test model (c16_test) on the solver replies the
+      implementation saw: outputs, stuck/normal counts, exit code, who skipped the solver, final cache.
 """
 import contextlib
 import io
@@ -35,10 +38,15 @@ PARTIAL = (
     "CPython reference counting that the Coq model cannot express. It is only MONITORED here (L2 on real "
     "Path objects, L3 inside real halmos runs, with forced gc between paths); C16_needs_stability_refuted "
     "shows it cannot be dropped. Thread interleavings of the solver pool are covered by the event-history "
-    "theorem (C16_sound, C16_transparent_any_state) but the ties run queries sequentially per context."
+    "theorem (C16_sound, C16_transparent_any_state) but the ties run queries sequentially per context. "
+    "The two semantics of C16_test_sound/_transparent (query as posed vs after refine()) are section variables related "
+    "by `every real valuation is an abstract one`; that halmos' refine() implements exactly that relation is C04's subject. "
+    "A consumer of the solver whose code has a shape T-cacheusers does not know (anything but solve_low_level / "
+    "solve_end_to_end / a check_unsat_cores look-up, combined by if/and/or/not) is reported as a broken translator, not modelled."
 )
 ASSUMPTIONS = [
-    "H1: the external solver's unsat cores are correct (a non-empty core names an unsatisfiable subset of the query)",
+    "H1: the external solver's unsat cores are correct (a non-empty core names an unsatisfiable subset of the query -- as posed for the un-refined file, under the real operations for the refined file)",
+    "abstraction: a valuation satisfying constraints under the real mul/div/... satisfies them for some interpretation of halmos' f_evm_* symbols",
     "H2: identifier stability within a function context (monitored, not proved)",
     "H3 (only for exact equality of verdicts): the uncached pipeline answers unsat on really unsatisfiable queries (no timeout/error); without it C16_monotone / C16_fail_iff apply",
     "the solver's answer (sat/unsat/unknown) does not depend on the unsat-core instrumentation of the query file (named assertions, :produce-unsat-cores); a solver that times out only on the instrumented file is counted, not flagged (seen once under heavy machine load)",
@@ -873,11 +881,11 @@ def run(rep, tier):
 
     rep.coverage["traces_validated_against_impl"] = rep.evaluations
     return rep.finish(
-        checker_cmd="make -C coq Props/C16.vo (coq_makefile, coqc 8.16.1) after regenerating coq/Gen/{GenUnsatCore,GenCoreIds,GenCoreAppend}.v from /repo/src/halmos/{solve,sevm,__main__}.py",
+        checker_cmd="make -C coq Props/C16.vo (coq_makefile, coqc 8.16.1) after regenerating coq/Gen/{GenUnsatCore,GenCoreIds,GenCoreAppend,GenCacheUsers}.v from /repo/src/halmos/{solve,sevm,__main__}.py",
         trusted_base=common.TRUSTED_BASE_COMMON + ["the real z3 binary as truthful solver in the L2/L3 ties (cross-checked against enumeration in L2)", "sh + a one-line script as scripted solver in the L1 history tie"],
         assumptions=ASSUMPTIONS,
         partial=PARTIAL,
-        rule="cases: (space) every Unicode code point against \\s and str.split; (parse) solver replies: generated well-formed replies with Unicode white space / optional error line / 0-12 ids, malformed-by-construction replies, single-character mutations (model vs implementation only); (check) random id lists and core lists; (dump) query files; (history) 2-8 queries per function context over a pool of ids denoting literals, scripted solver replies (truthful with correct/empty/missing/odd cores; adversarial; id-reusing), run through the real solve_end_to_end and the real callback with cache on and off, compared step by step with the model from the implementation's own cache state and with the truth table; (tree) random condition trees built with real Path.branch/activate, every leaf serialised by Path.to_smt2 and solved by real z3, gc.collect() between paths, id->sexpr monitor; (e2e) halmos runs on fabricated bytecode tests with cache on and off. A history/tree/e2e case is non-trivial when at least one query is answered from the cache; parse cases unless trivially short; distinct by hash of the case",
+        rule="cases: (space) every Unicode code point against \\s and str.split; (parse) solver replies: generated well-formed replies with Unicode white space / optional error line / 0-12 ids, malformed-by-construction replies, single-character mutations (model vs implementation only); (check) random id lists and core lists; (dump) query files; (history) 2-8 queries per function context over a pool of ids denoting literals, scripted solver replies (truthful with correct/empty/missing/odd cores; adversarial; id-reusing), run through the real solve_end_to_end and the real callback with cache on and off, compared step by step with the model from the implementation's own cache state and with the truth table; (tree) random condition trees built with real Path.branch/activate, every leaf serialised by Path.to_smt2 and solved by real z3, gc.collect() between paths, id->sexpr monitor; (e2e) halmos runs on fabricated bytecode projects with cache on and off: a hand-made corpus plus random projects of decision trees over three uint256 arguments whose leaves panic, get STUCK (jump to a symbolic destination) or stop; most trees contain a gadget -- a conjunction contradictory under the real mul/div and satisfiable for the uninterpreted abstraction -- above a subtree over the third argument, so that the same stored core is met again by later assertion and stuck paths in both exploration orders; sync projects (solver answers before the next path) are replayed test by test in the extracted run_test model, one project lets the solver race the engine. A history/tree/e2e case is non-trivial when at least one query is answered from the cache; parse cases unless trivially short; distinct by hash of the case",
     )
 
 
